@@ -12,6 +12,9 @@
 #include <QJsonDocument>
 #include <QLoggingCategory>
 #include <cstdio>
+#include <fcntl.h>
+#include <sys/wait.h>
+#include <unistd.h>
 #include <cstdlib>
 
 namespace sim {
@@ -81,12 +84,30 @@ static bool hasViolation(const RunResult &r, const QString &cls, const QString &
 
 static Plan shrink(Engine *e, Plan plan, const QString &cls, const QString &sig, int &execs, int budget)
 {
+    // every candidate runs in a forked child: a candidate that crashes (assertion, sanitizer report) is simply
+    // "not the same violation" and cannot take the shrinker down with it
     auto fails = [&](const Plan &p) {
         if (execs >= budget) {
             return false;
         }
         ++execs;
-        return hasViolation(runPlan(e, p, false), cls, sig);
+        fflush(stdout);
+        fflush(stderr);
+        pid_t pid = fork();
+        if (pid == 0) {
+            int devnull = open("/dev/null", O_WRONLY);
+            if (devnull >= 0) {
+                dup2(devnull, 2);
+            }
+            const bool f = hasViolation(runPlan(e, p, false), cls, sig);
+            _exit(f ? 1 : 0);
+        }
+        if (pid < 0) {
+            return hasViolation(runPlan(e, p, false), cls, sig);
+        }
+        int status = 0;
+        waitpid(pid, &status, 0);
+        return WIFEXITED(status) && WEXITSTATUS(status) == 1;
     };
     // ddmin over ops
     int n = 2;
